@@ -942,7 +942,9 @@ fn barrier_family(out: &mut Out) {
     use zerv::version::zerv::components::{Component as C, Var};
     use zerv::version::zerv::ZervVars;
     let texts = ["feature/x", "féature/٣x", "a..b", "--", "", "00012", "K", "İx", "a b\tc", "release/007/x", "ＡＢ",
-                 "build/018446744073709551616", "0123456789012345678901234567890123456789", "abcdefgéhij", "1..02"];
+                 "build/018446744073709551616", "0123456789012345678901234567890123456789", "abcdefgéhij", "1..02",
+                 // multi-byte characters straddling byte 8 (the short-hash cut) at every offset
+                 "abcdef€x", "abcde€xy", "abcdefg€", "abcd€efgh", "abcdef😀x", "abcde😀xy", "abcd😀xyz", "abcdefg😀", "日本語日本語", "aé日本語日本"];
     let vars_of = |t: &str| ZervVars {
         major: Some(1), minor: Some(0), patch: Some(0), epoch: Some(2), post: Some(3), dev: Some(4), distance: Some(5), dirty: Some(true),
         bumped_branch: Some(t.to_string()), bumped_commit_hash: Some(t.to_string()), last_branch: Some(t.to_string()),
